@@ -50,7 +50,26 @@ macro_rules! harnesses {
 
 pub mod selftest;
 pub mod oracle;
+/// Table-only variant for bodies that are never run under Kani (native replay of the MIR engine's
+/// counterexamples through the parser and evaluator, which kani-compiler cannot build).
+#[macro_export]
+macro_rules! replay_only {
+    ($( $(#[$attr:meta])* $name:ident : $tier:literal, $enc:literal, $bounds:literal; )*) => {
+        pub const HARNESSES: &[$crate::Harness] = &[
+            $( $crate::Harness {
+                name: stringify!($name),
+                f: $name,
+                tier: $tier,
+                attrs: "native only",
+                encoded: $enc,
+                bounds: $bounds,
+            } ),*
+        ];
+    };
+}
+
 pub mod c02;
+#[cfg(not(kani))]
 pub mod node;
 pub mod c08;
 pub mod c09;
@@ -64,6 +83,7 @@ pub mod c18;
 pub fn all_harnesses() -> Vec<&'static Harness> {
     let mut v: Vec<&'static Harness> = Vec::new();
     v.extend(c02::HARNESSES.iter());
+    #[cfg(not(kani))]
     v.extend(node::HARNESSES.iter());
     v.extend(c08::HARNESSES.iter());
     v.extend(c09::HARNESSES.iter());
